@@ -224,8 +224,8 @@ def _tensor_product_MProcess_MProcess(elem1: MProcess, elem2: MProcess) -> MProc
 
     # calc list of HS(g1 \otimes g2)
     hss = []
-    for hs2 in elem2.hss:
-        for hs1 in elem1.hss:
+    for hs1 in elem1.hss:
+        for hs2 in elem2.hss:
             hs = _tensor_product_hs_hs(hs1, hs2, e_sys_list)
             hss.append(hs)
     shape = elem1.shape + elem2.shape
